@@ -2,8 +2,8 @@
    decodes literals exactly).  Statements closed by [exact lemma], non-vacuity
    examples, Print Assumptions. *)
 From RJ Require Import Base.Outcome Model.Token Model.Utf8 Model.Lexer
-  Proofs.Utf8_proofs Proofs.Lexer_proofs Proofs.Lexer_values_proofs Gen.LexTables.
-From Coq Require Import Lia.
+  Proofs.Utf8_proofs Proofs.Lexer_proofs Proofs.Lexer_values_proofs Proofs.Lexer_denote_proofs Gen.LexTables.
+From Coq Require Import Lia QArith_base.
 Local Open Scope N_scope.
 
 (* ---- T: the tables found in the current source are the model's ---- *)
@@ -146,6 +146,15 @@ Theorem C14_number_digits_value : forall a b,
   dec_value (a ++ b) = dec_value a * 10 ^ N.of_nat (length b) + dec_value b.
 Proof. exact dec_value_app. Qed.
 
+(* Z_of_digits digits * 10^exp = value of the text, as rationals: a token
+   produced for the segments int / frac / (+/-)X denotes
+   (int + frac / 10^|frac|) * 10^(+/-X) *)
+Theorem C14_number_denotes : forall strict chr0 r digits e t,
+  number_spec strict chr0 r = Ok (digits, e, t) ->
+  exists df sign X, digits = (chr0 :: fst (fst (scan_group false r))) ++ df /\
+                    QArith_base.Qeq (num_denote digits e) (text_denote (chr0 :: fst (fst (scan_group false r))) df sign X).
+Proof. exact number_spec_denotes. Qed.
+
 (* the upstream grammar (an underscore must be followed by a digit) is contained
    in what the code accepts, with the same token ... *)
 Theorem C14_number_strict_sub : forall chr0 r x,
@@ -272,6 +281,7 @@ Print Assumptions C14_textblock_value.
 Print Assumptions C14_textblock_spec_examples.
 Print Assumptions C14_number_value.
 Print Assumptions C14_number_digits_value.
+Print Assumptions C14_number_denotes.
 Print Assumptions C14_number_strict_sub.
 Print Assumptions C14_number_underscore_deviation.
 Print Assumptions C14_number_spec_examples.
